@@ -398,6 +398,16 @@ OPTION_LIKE = {"None": False, "Some": True}
 RESULT_LIKE = {"Err": False, "Ok": True}
 
 
+_INT = re.compile(r"^(?:const )?(-?\d+)_(?:usize|isize|u8|u16|u32|u64|u128|i8|i16|i32|i64|i128)$")
+
+
+def _const_int(e):
+    if e[0] != "const":
+        return None
+    m = _INT.match(e[1])
+    return int(m.group(1)) if m else None
+
+
 def _const_bool(text):
     if text in ("const true", "true"):
         return True
@@ -443,6 +453,14 @@ def normalise_atom(expr, value):
                     red = (x, (value == cb) if op == "Eq" else (value != cb))
                     break
             if red is None:
+                # `x == 3` / `x != 3` / `match x { 3 => .. }` all read `x=3` or `x not-in (3,)`
+                for x, y in ((a, bb), (bb, a)):
+                    ci = _const_int(y)
+                    if ci is not None:
+                        same = value if op == "Eq" else (not value)
+                        return x, (ci if same else ("not-in", (ci,)))
+                if op == "Ne":
+                    expr, value = ("bin", "Eq", a, bb), (not value)
                 return expr, value
             expr, value = red
             continue
